@@ -105,6 +105,21 @@ CLAIMED["C14"] = dict(
          "driven here (C10 drives the 502/302 path); trusted as for C02",
     design="DESIGN.md 5 C14")
 
+CLAIMED["C07"] = dict(
+    text="Coq theorems on the model of the two coupled flow tables (Model/UdpFlows.v: udp_pipe.rs over udp_forwarder.rs) for every "
+         "operation history with the environment's answers as operations: the multiplexer never terminates, both tables know exactly "
+         "the same flows with no duplicate key and equal size (gauge = live flows), no socket serves two flows, a forwarded datagram "
+         "uses its own flow's socket, a reply is labelled with the reversed key, after a tick every remaining flow was active within "
+         "the timeout, an answered port-53 flow is released on both sides, a released pair starts a fresh flow on a fresh socket, and "
+         "any per-flow event leaves all other flows' entries untouched. Tied by translator facts (UdpFacts.v) and by the differential "
+         "run of the real multiplexer on loopback UDP sockets in real time (echo servers, closed port, unconnectable address, expiry, "
+         "reuse) with direct oracles",
+    note="partial: sockets, ICMP errors and time are environment operations of the model; idle times are kept 150 ms away from the "
+         "window in which the tick phase decides; the SOCKS5 UDP forwarder's table (socks5_forwarder.rs) is tied by the "
+         "on_connection_closed orientation fact only; trusted: Coq kernel, Model/UdpFlows.v, translator facts, extraction + driver, "
+         "harness doors verif::udp / verif::metrics",
+    design="DESIGN.md 5 C07")
+
 PENDING_REASON = "check under construction in this round (designed in DESIGN.md, not yet wired into ./check)"
 
 
